@@ -267,6 +267,36 @@ def read_ndjson(path):
         return [json.loads(l) for l in f if l.strip()]
 
 
+PART_BYTES = 48 * 1024 * 1024
+
+
+def split_trace(path, key="case"):
+    """[path] if the file is small; otherwise files of about PART_BYTES each, cut only where the case key changes."""
+    try:
+        if os.path.getsize(path) <= PART_BYTES * 3 // 2:
+            return [path]
+    except OSError:
+        return [path]
+    pat = re.compile(r'"%s":\s*(\d+)' % re.escape(key))
+    parts, out, size, last = [], None, 0, None
+    with open(path) as f:
+        for l in f:
+            m = pat.search(l[:400]) or pat.search(l)
+            cur = m.group(1) if m else last
+            if out is None or (size >= PART_BYTES and cur != last):
+                if out:
+                    out.close()
+                parts.append("%s.q%d" % (path, len(parts)))
+                out = open(parts[-1], "w")
+                size = 0
+            out.write(l)
+            size += len(l)
+            last = cur
+    if out:
+        out.close()
+    return parts
+
+
 def cases_lines(path, case_ids, key="case"):
     """Raw lines of several cases of a trace file, in one pass: {case_id: [lines]}."""
     want = set(case_ids)
@@ -434,16 +464,30 @@ class Run:
             "" if res["ok"] else "  ERROR " + str(res["error"])))
 
     def validate(self, name, module, cfg, trace, classify, env=None, timeout=1800, case_key="case", xmx="3g"):
-        """TLC-judge one trace file; route rejected cases to verdicts.  Returns #cases rejected."""
-        r = tlc_trace(name, module, cfg, trace, timeout=timeout, env=env, xmx=xmx)
-        if not r["ok"]:
-            self.tool_errors.append("%s: %s (see %s)" % (name, r["error"], r["log"]))
-            return 0
-        self.events += r["events"]
-        for tag, cases in r["tags"].items():
-            self.tags[tag] = self.tags.get(tag, 0) + len(set(cases))
-            if tag == "SPEC-ERROR":
-                self.tool_errors.append("%s: specification cross-check failed on case(s) %s of %s" % (name, sorted(set(cases))[:5], trace))
+        """TLC-judge one trace file; route rejected cases to verdicts.  Returns #cases rejected.
+        TLC holds the whole deserialized trace in memory, so a large file is judged in parts cut at case boundaries."""
+        parts = split_trace(trace, case_key)
+        rejects = []
+        try:
+            for k, part in enumerate(parts):
+                r = tlc_trace(name if len(parts) == 1 else "%s.p%d" % (name, k), module, cfg, part, timeout=timeout, env=env, xmx=xmx)
+                if not r["ok"]:
+                    self.tool_errors.append("%s: %s (see %s)" % (name, r["error"], r["log"]))
+                    return 0
+                self.events += r["events"]
+                for tag, cases in r["tags"].items():
+                    self.tags[tag] = self.tags.get(tag, 0) + len(set(cases))
+                    if tag == "SPEC-ERROR":
+                        self.tool_errors.append("%s: specification cross-check failed on case(s) %s of %s" % (name, sorted(set(cases))[:5], trace))
+                rejects += r["rejects"]
+        finally:
+            for part in parts:
+                if part != trace:
+                    try:
+                        os.remove(part)
+                    except OSError:
+                        pass
+        r = dict(rejects=rejects)
         bad_cases = sorted(set(c for (_, c) in r["rejects"]))
         # every rejected case is classified (known finding or not); replay files are written for
         # the first unknown ones, the rest are only counted
